@@ -234,6 +234,14 @@ theorem step_spec {base : Image A} {nd : Node A} (hA : A.Lawful) (cfg : Cfg) (hp
   | flushReq =>
     obtain ⟨c, e⟩ := core_flushRequired h.core h.utxo_eq
     exact ⟨⟨c, h.utxo_eq, e.2.2.1 h.marker_some⟩, e⟩
+  | flushPeriodic =>
+    show Good base (if cfg.cacheAlways then flushRequired nd else emit nd .nop) ∧
+      Ext nd (if cfg.cacheAlways then flushRequired nd else emit nd .nop)
+    split
+    · obtain ⟨c, e⟩ := core_flushRequired h.core h.utxo_eq
+      exact ⟨⟨c, h.utxo_eq, e.2.2.1 h.marker_some⟩, e⟩
+    · obtain ⟨c, e⟩ := core_step (nd' := emit nd .nop) h.core (c := .nop) trivial rfl rfl rfl rfl rfl h.core.tip_eq
+      exact ⟨⟨c, h.utxo_eq, e.2.2.1 h.marker_some⟩, e⟩
   | flushIfNeeded =>
     obtain ⟨c, e⟩ := core_flushIfNeeded cfg h.core (at_ := nd.tip) (List.suffix_refl _)
       (by have := List.IsSuffix.length_le h.core.inv.marker_anc
